@@ -4,6 +4,7 @@ package epubdoc
 
 import (
 	"archive/zip"
+	"encoding/xml"
 	"errors"
 	"io"
 )
@@ -61,4 +62,42 @@ func VerifFindNavigation(manifest map[string]ManifestItem) (navID, ncxID string)
 		ncxID = it.ID
 	}
 	return navID, ncxID
+}
+
+// VerifEncryptionEntries exposes what hasEncryptedContent's xml.Unmarshal makes
+// of the bytes of an encryption.xml: the (EncryptionMethod/@Algorithm,
+// CipherData/CipherReference/@URI) pair of every EncryptedData, in order.
+func VerifEncryptionEntries(data []byte) ([][2]string, error) {
+	var enc encryptionXML
+	if err := xml.Unmarshal(data, &enc); err != nil {
+		return nil, err
+	}
+	out := make([][2]string, len(enc.EncryptedData))
+	for i, ed := range enc.EncryptedData {
+		out[i] = [2]string{ed.EncryptionMethod.Algorithm, ed.CipherData.CipherReference.URI}
+	}
+	return out, nil
+}
+
+// VerifHasEncryptedContent exposes hasEncryptedContent on the first member
+// named META-INF/encryption.xml of an archive: "true", "false", "err" (the
+// member cannot be read or parsed), "none" (no such member) or "zip".
+func VerifHasEncryptedContent(ra io.ReaderAt, size int64) string {
+	zr, err := zip.NewReader(ra, size)
+	if err != nil {
+		return "zip"
+	}
+	for _, f := range zr.File {
+		if f.Name == "META-INF/encryption.xml" {
+			enc, err := hasEncryptedContent(f)
+			switch {
+			case err != nil:
+				return "err"
+			case enc:
+				return "true"
+			}
+			return "false"
+		}
+	}
+	return "none"
 }
